@@ -24,3 +24,14 @@ impl Havoc for () {
 pub fn any_bool() -> bool {
     <bool as Havoc>::havoc()
 }
+
+impl<A: Havoc, B: Havoc> Havoc for (A, B) {
+    fn havoc() -> Self {
+        (A::havoc(), B::havoc())
+    }
+}
+impl<A: Havoc, B: Havoc, C: Havoc> Havoc for (A, B, C) {
+    fn havoc() -> Self {
+        (A::havoc(), B::havoc(), C::havoc())
+    }
+}
